@@ -4,7 +4,11 @@
 // monotonic clock cannot produce.
 package simtime
 
-import "time"
+import (
+	"time"
+
+	simrt "verif/sim/rt"
+)
 
 var offset time.Duration
 
@@ -23,3 +27,28 @@ func Reset() { offset = 0; Reads = 0 }
 
 // Offset returns the current offset.
 func Offset() time.Duration { return offset }
+
+// AfterFunc is time.AfterFunc whose callback runs as a task of the simulation (its own
+// goroutine, as with the real one), so that whatever it does to simulated mutexes, condition
+// variables and files goes through the scheduler like everybody else's operations.
+func AfterFunc(d time.Duration, f func()) *time.Timer {
+	if simrt.Cur() == nil {
+		return time.AfterFunc(d, f)
+	}
+	proc := 0
+	if _, t := simrt.Current(); t != nil {
+		proc = t.Proc
+	}
+	return time.AfterFunc(d, func() {
+		id := simrt.SpawnForeign("timer", proc)
+		if id < 0 {
+			f()
+			return
+		}
+		go func() {
+			defer simrt.Exit(id)
+			simrt.Start(id)
+			f()
+		}()
+	})
+}
